@@ -25,6 +25,7 @@ Units == { U(<<97>>), U(<<92, 34>>), U(<<92, 92>>), U(<<92, 47>>), U(<<92, 98>>)
            U(<<92, 117, 100, 56, 51, 100, 92, 117, 100, 101, 48, 48>>),                                                 \* 😀
            U(<<195, 169>>), U(<<226, 130, 172>>), U(<<240, 159, 152, 128>>),                                             \* é € U+1F600 raw
            U(<<36>>), U(<<46>>), U(<<91>>), U(<<96>>), U(<<39>>), U(<<123>>), U(<<32>>),
+           U(<<47>>), U(<<42>>), U(<<47, 42>>), U(<<42, 47>>), U(<<124>>), U(<<58, 61>>), U(<<126, 62>>),        \* / * /* */ | := ~> : characters that mean something outside a string
            Bad(<<92, 117, 100, 56, 51, 100>>), Bad(<<92, 117, 100, 101, 48, 48>>), Bad(<<92, 113>>), Bad(<<92, 117, 48, 48, 103, 49>>) }
 UnitSeqs == UNION {[1..n -> Units] : n \in 0..MaxUnits}
 Body(us) == SeqConcatAll([i \in 1..Len(us) |-> us[i].b])
@@ -37,7 +38,7 @@ HasRawSq(us) == \E i \in 1..Len(us) : us[i].b = <<39>>
 \* numbers
 Ints == {<<48>>, <<49>>, <<49, 50>>, <<49, 50, 48>>, <<57, 57, 57>>}
 Fracs == {<<>>, <<46, 48>>, <<46, 53>>, <<46, 50, 53>>, <<46, 49, 50, 53>>, <<46, 49>>}
-Exps == {<<>>, <<101, 48>>, <<101, 49>>, <<69, 43, 50>>, <<101, 45, 49>>, <<101, 45, 50>>, <<69, 51>>}
+Exps == {<<>>, <<101, 48>>, <<101, 49>>, <<69, 43, 50>>, <<101, 45, 49>>, <<101, 45, 50>>, <<69, 51>>, <<101, 48, 49>>, <<69, 43, 48, 50>>, <<101, 45, 48, 48, 49>>, <<101, 48, 48>>}
 Numerals == {s \o i \o f \o x : s \in {<<>>, <<45>>}, i \in Ints, f \in Fracs, x \in Exps}
 EdgeNumerals == { <<49, 50, 51, 52, 53, 54, 55, 56, 57, 48, 49, 50, 51, 52, 53, 54, 55>>,                \* 17 digits
                   <<57, 48, 48, 55, 49, 57, 57, 50, 53, 52, 55, 52, 48, 57, 57, 51>>,                    \* 2^53 + 1
